@@ -3,6 +3,8 @@
 package c08
 
 import (
+	"bytes"
+	"context"
 	"encoding/json"
 	"fmt"
 	"regexp"
@@ -13,6 +15,7 @@ import (
 	"github.com/invopop/gobl"
 	"github.com/invopop/gobl/dsig"
 	"github.com/invopop/gobl/head"
+	"github.com/invopop/gobl/internal/cli"
 	"github.com/invopop/gobl/verifharness/internal/corpus"
 	"github.com/invopop/gobl/verifharness/internal/jsontree"
 	"github.com/invopop/gobl/verifharness/internal/pubschema"
@@ -570,12 +573,15 @@ func enumEdits(yield func(Edit) bool) {
 // content preserving re-encodings
 
 type Reenc struct {
-	Doc       string `json:"doc"`
-	Seed      uint64 `json:"seed"`
-	Escapes   bool   `json:"escapes"`
-	Spaces    bool   `json:"spaces"`
-	BareNums  bool   `json:"bare_numbers"`
-	Reversed  bool   `json:"reversed"`
+	Doc      string `json:"doc"`
+	Seed     uint64 `json:"seed"`
+	Escapes  bool   `json:"escapes"`
+	Spaces   bool   `json:"spaces"`
+	BareNums bool   `json:"bare_numbers"`
+	Reversed bool   `json:"reversed"`
+	// Astral: the header notes (not part of the digest) hold characters outside
+	// the basic plane, which the escaped form writes as surrogate pairs
+	Astral    bool `json:"astral,omitempty"`
 	rendering []byte
 }
 
@@ -667,7 +673,24 @@ func judgeReenc(r Reenc, o *vh.Obs) {
 	}
 	rng := r.Seed | 1
 	var sb strings.Builder
-	render(b.tree, r, &rng, false, &sb)
+	tree := b.tree
+	if root, ok := tree.(map[string]any); ok && r.Astral {
+		o.Class("astral-notes")
+		cp := map[string]any{}
+		for k, v := range root {
+			cp[k] = v
+		}
+		hd := map[string]any{}
+		if h, ok := root["head"].(map[string]any); ok {
+			for k, v := range h {
+				hd[k] = v
+			}
+		}
+		hd["notes"] = "Smile \U0001F600 \U0001D11E"
+		cp["head"] = hd
+		tree = cp
+	}
+	render(tree, r, &rng, false, &sb)
 	text := []byte(sb.String())
 	if !json.Valid(text) {
 		o.Failf("harness:invalid-rendering", "renderer produced invalid JSON")
@@ -684,6 +707,11 @@ func judgeReenc(r Reenc, o *vh.Obs) {
 	}
 	if err := env.Validate(); err != nil {
 		o.Failf("reencoded:rejected", "envelope re-serialised with different member order / whitespace / escapes fails validation: %v", err)
+		return
+	}
+	// the same text through the entry point of the command line, bulk and HTTP
+	if err := cli.Validate(context.Background(), bytes.NewReader(text)); err != nil {
+		o.Failf("reencoded:rejected-by-cli", "envelope re-serialised with different member order / whitespace / escapes validates in the library and fails cli.Validate: %v", err)
 		return
 	}
 	d, err := env.Digest()
@@ -710,6 +738,7 @@ func genReenc(t *rapid.T) Reenc {
 		Escapes:  rapid.Bool().Draw(t, "escapes"),
 		Spaces:   rapid.Bool().Draw(t, "spaces"),
 		Reversed: rapid.IntRange(0, 4).Draw(t, "rev") == 0,
+		Astral:   rapid.IntRange(0, 2).Draw(t, "astral") == 0,
 	}
 }
 
@@ -723,7 +752,7 @@ func genEdit(t *rapid.T) Edit {
 
 func init() {
 	vh.Describe(
-		"Bases: every example document, enveloped, calculated and valid (quick: a spread of 1 in 7 plus all non-invoice documents for the exhaustive sweep; thorough: all). Exhaustive single edits of the serialised doc: every leaf altered to another value of its type (amounts: digit and precision; percentages; dates; date-times: second, zone designator, fraction; strings; booleans) - an alteration that is read back as the same content is a blind spot -, every member and element removed, every member that other examples carry at the same position, or that the published schema declares there (a small instance built from the schema: lists with one element, maps with one entry, objects with their required members), added, arrays swapped / shortened / duplicated; plus rapid sampling of edits over all bases, and random content-preserving re-encodings (member order, whitespace, \\u escapes). Oracle: J(x) = JSON of marshal(parse(x).doc); J equal => validates with the same digest; J different => Digest() differs from head.dig, Validate() fails (with the digest key when everything else validates), and after Calculate() the digest equals the original iff J does. Non-trivial: the edit changes J (it is not normalised away by the parser).",
+		"Bases: every example document, enveloped, calculated and valid (quick: a spread of 1 in 7 plus all non-invoice documents for the exhaustive sweep; thorough: all). Exhaustive single edits of the serialised doc: every leaf altered to another value of its type (amounts: digit and precision; percentages; dates; date-times: second, zone designator, fraction; strings; booleans) - an alteration that is read back as the same content is a blind spot -, every member and element removed, every member that other examples carry at the same position, or that the published schema declares there (a small instance built from the schema: lists with one element, maps with one entry, objects with their required members), added, arrays swapped / shortened / duplicated; plus rapid sampling of edits over all bases, and random content-preserving re-encodings (member order, whitespace, \\u escapes; for a third the header notes hold characters outside the basic plane, escaped as surrogate pairs), which must validate in the library and through cli.Validate, the entry point of the command line, bulk and HTTP. Oracle: J(x) = JSON of marshal(parse(x).doc); J equal => validates with the same digest; J different => Digest() differs from head.dig, Validate() fails (with the digest key when everything else validates), and after Calculate() the digest equals the original iff J does. Non-trivial: the edit changes J (it is not normalised away by the parser).",
 		"members the parser does not know are not part of the logical content (they vanish on parse); additions therefore use members other examples carry at the same position or the published schemas declare there",
 	)
 	vh.Enum("edits", enumEdits, judgeEdit)
